@@ -209,7 +209,7 @@ def handleBoolGate (args obs : List String) : Verdict :=
   | _ => bad "arity"
 
 /-- `boolstr <codes> | accept|sigpanic`: the forced-boolean gate on an arbitrary token string
-    (f fn, ( ), > arrow, b bool, u u8, `,` comma, & amp).  Agreement is with the gate the
+    (f fn, ( ), > arrow, b bool, u u8, `,` comma, & amp, e a non-ASCII identifier).  Agreement is with the gate the
     translator read; the property side is the top-level-return-type scan itself. -/
 def handleBoolStr (args obs : List String) : Verdict :=
   match args with
@@ -217,7 +217,7 @@ def handleBoolStr (args obs : List String) : Verdict :=
     let toks : List Tok := codes.toList.filterMap fun c =>
       if c == 'f' then some Tok.fn_ else if c == '(' then some Tok.lp else if c == ')' then some Tok.rp
       else if c == '>' then some Tok.arrow else if c == 'b' then some (Tok.id boolId) else if c == 'u' then some (Tok.id 1)
-      else if c == ',' then some Tok.comma else if c == '&' then some Tok.amp else none
+      else if c == ',' then some Tok.comma else if c == '&' then some Tok.amp else if c == 'e' then some (Tok.id 2) else none
     if toks.length != codes.length then bad "codes" else
     let out := obs.headD "?"
     let m := if boolGate toks then "accept" else "sigpanic"
